@@ -6,6 +6,7 @@ package main
 // are flushed into a MemDB whose write lock the open iterator's goroutine still holds).
 
 import (
+	"go/types"
 	"fmt"
 	"sort"
 	"strings"
@@ -156,4 +157,45 @@ func typestateCheck(l *Loaded, prop string) []*OblReport {
 	}
 	sort.Slice(reps, func(i, j int) bool { return reps[i].Name < reps[j].Name })
 	return reps
+}
+
+// bindCheck (layer F): the interface-typed handler field of a module Keeper is only ever assigned a value of the
+// expected concrete type, so that invokes through the field can be bound to that type's method.
+func bindCheck(l *Loaded, prop, pkgSuffix, field, concrete string) *OblReport {
+	rep := &OblReport{Name: fmt.Sprintf("%s/F/bind/%s.%s", prop, strings.TrimPrefix(pkgSuffix, "/x/"), field), Kind: "bind", Func: "Keeper." + field, Solver: "syntactic", Status: "discharged"}
+	stores := 0
+	for _, fn := range moduleFunctions(l) {
+		for _, b := range fn.Blocks {
+			for _, in := range b.Instrs {
+				st, ok := in.(*ssa.Store)
+				if !ok {
+					continue
+				}
+				fa, ok := st.Addr.(*ssa.FieldAddr)
+				if !ok {
+					continue
+				}
+				pt, ok := fa.X.Type().Underlying().(*types.Pointer)
+				if !ok {
+					continue
+				}
+				nt, ok := pt.Elem().(*types.Named)
+				if !ok || nt.Obj().Name() != "Keeper" || nt.Obj().Pkg() == nil || !strings.HasSuffix(nt.Obj().Pkg().Path(), pkgSuffix) {
+					continue
+				}
+				if nt.Underlying().(*types.Struct).Field(fa.Field).Name() != field {
+					continue
+				}
+				stores++
+				mi, ok := st.Val.(*ssa.MakeInterface)
+				if !ok || !strings.HasSuffix(typeString(mi.X.Type()), pkgSuffix+"."+concrete) {
+					rep.Status = fmt.Sprintf("failed: %s assigns Keeper.%s a value that is not a %s (%s)", shortFuncName(fn), field, concrete, l.prog.Fset.Position(st.Pos()))
+				}
+			}
+		}
+	}
+	if stores == 0 {
+		rep.Status = "failed: no assignment of Keeper." + field + " found"
+	}
+	return rep
 }
